@@ -160,7 +160,7 @@ CLAIMED = {
        + " (FSM) lzma_code's transition relation (C11) is evaluated here too: a completed flush/barrier returns to ISEQ_RUN."
        + ' (STRONG) the update functions replace the chain only after the copy succeeded (C10 rule).'
        + ' (BLKOPT, CHAINEND).'
-       + ' (LASTEND) delta_encode as last coder: every return passes the `action != LZMA_RUN && *in_pos == in_size` decision; (SIZEKEY) LZ encoder arrays kept only with unchanged final size keys (C10).',
+       + ' (LASTEND) delta_encode as last coder: every return passes the `action != LZMA_RUN && *in_pos == in_size` decision; (SIZEKEY) LZ encoder arrays kept only with unchanged final size keys (C10). (NULLOPT) interprocedural unchecked-dereference summary: the entry points of the filter tables test `const void *options` against NULL before it is dereferenced directly or in a callee.',
   technique="must-pass-through (edge cut) on finite-domain product graphs, dominator rules, table comparison",
   ref="4/C12"),
  "C09": dict(
@@ -180,7 +180,7 @@ CLAIMED = {
        + ' (FREEFIRST) a cached buffer replaced because its size key changed is freed before its replacement is allocated; (NEEDED) lzma_stream_buffer_decode reports the need through *memlimit.'
        + ' (XZ limit-by-mode) every decoding mode of xz uses --memlimit-decompress; (PENDING) lzma_memlimit_set counts a Block waiting to be started; (KEPT) a cached worker exempted from freeing is reconciled with the worker actually obtained.'
        + ' (SIZEKEY) as in C10.'
-       + ' (OUTQLOOP) the condition of every `while (...) helper(outq)` loop of outqueue.c reads a lzma_outq member the helper modifies.',
+       + ' (OUTQLOOP) the condition of every `while (...) helper(outq)` loop of outqueue.c reads a lzma_outq member the helper modifies. (NULLOPT) as in C12, for the memusage entry points.',
   technique="must-pass-through (edge cut) on finite-domain product graphs, table joins, dominance rules",
   ref="4/C09"),
  "C04": dict(
